@@ -6,6 +6,7 @@ import shutil
 import minibase
 import proto_run as PR
 
+UA = minibase.UA
 MODULE = "OpcuaModel.Props.C20"
 TRUSTED_BASE = [
     "Lean 4.33.0 kernel; axioms audited (subset of propext, Classical.choice, Quot.sound)",
@@ -35,17 +36,18 @@ def sem_of(contents):
     return s
 
 
-def lone_results(sc, files):
+def lone_results(sc, files, caller=None):
     """each file parsed alone in its own directory: (canonical outcome, fingerprint or None)"""
     from opcua_tools import nodeset_parser as npm
     out = {}
+    caller = caller or {}
     for name, (c, flags) in files.items():
         d = sc.sub("lone")
         p = os.path.join(d, name)
         open(p, "w", encoding="utf-8").write(PR.doc_text(c, flags))
         ctl = PR.Ctl()
         with PR.Patched(ctl):
-            o, res = PR.outcome_of(lambda: npm.parse_xml(p), ctl)
+            o, res = PR.outcome_of(lambda: npm.parse_xml(p, list(caller[name])) if name in caller else npm.parse_xml(p), ctl)
         out[name] = ({k: v for k, v in o.items() if k != "exc"}, PR.fingerprint(res) if res is not None else None)
         shutil.rmtree(d, ignore_errors=True)
     return out
@@ -62,7 +64,7 @@ def interleaved(executed):
     return False
 
 
-def run_threads(run, sc, tag, files, inputs, schedule, clear_cache, fine=False):
+def run_threads(run, sc, tag, files, inputs, schedule, clear_cache, fine=False, caller=None):
     """files: name -> (c, flags); inputs: the file each thread parses"""
     from opcua_tools import nodeset_parser as npm
     from opcua_tools.value_parser import cached_parse_nodeid
@@ -77,7 +79,8 @@ def run_threads(run, sc, tag, files, inputs, schedule, clear_cache, fine=False):
     ctl.sched = sch
     ctl.fine = fine
     with PR.Patched(ctl):
-        targets = [(lambda p=os.path.join(d, nm): npm.parse_xml(p)) for nm in inputs]
+        caller = caller or {}
+        targets = [(lambda p=os.path.join(d, nm), nm=nm: npm.parse_xml(p, list(caller[nm])) if nm in caller else npm.parse_xml(p)) for nm in inputs]
         results = sch.run(targets, schedule, ctl)
     outcomes, fps = [], []
     for t, (kind, val) in enumerate(results):
@@ -120,10 +123,15 @@ def different_files(run, sc, i):
         inputs.append(nm)
     fine = rng.random() < 0.5
     schedule = [rng.randrange(n) for _ in range((40 if fine else 12) * n)]
-    r = run_threads(run, sc, "d%d" % i, files, inputs, schedule, clear_cache=rng.random() < 0.5, fine=fine)
-    case = {"kind": "different files", "files": {k: list(v) for k, v in files.items()}, "executed": [[t, op] for t, op in r["executed"]]}
+    # caller-supplied namespace lists of different lengths: the files' local index 1 denotes a different global index in each call
+    caller = {}
+    if rng.random() < 0.6:
+        for t, nm in enumerate(inputs):
+            caller[nm] = [UA] + ["urn:pad%d" % j for j in range(rng.randint(0, 2) + t)]
+    r = run_threads(run, sc, "d%d" % i, files, inputs, schedule, clear_cache=rng.random() < 0.5, fine=fine, caller=caller)
+    case = {"kind": "different files", "files": {k: list(v) for k, v in files.items()}, "caller_namespaces": caller, "executed": [[t, op] for t, op in r["executed"]]}
     run.case({"files": case["files"], "executed": case["executed"]}, nontrivial=interleaved(r["executed"]), tag="threads:different" + (":fine" if fine else ""))
-    lone = lone_results(sc, files)
+    lone = lone_results(sc, files, caller)
     problems = []
     for t, nm in enumerate(inputs):
         lo, lfp = lone[nm]
